@@ -3,6 +3,7 @@ package main
 import (
 	"verif/core"
 	_ "verif/props/c01"
+	_ "verif/props/c02"
 	_ "verif/props/c04"
 	_ "verif/props/c05"
 	_ "verif/props/c06"
